@@ -16,6 +16,7 @@ func init() {
 		Explain: "Decided (structural necessary condition of 'references stay inside the root'): " +
 			"O1 every pb.DataObj that is serialised (proto.Marshal) for the filestore datastore gets its FilePath either from a URL reference (store reachable only where IsURL(<that path>) was true) or from filepath.Rel(<FileManager.root>, <the node's PosInfo.FullPath>) on Rel's nil-error edge AND on the accepting edge of a component-wise locality test of that relative path: filepath.IsLocal(rel) true, or rel != \"..\" together with !strings.HasPrefix(rel, \"../\"). String-prefix tests on the absolute path (filepath.HasPrefix, strings.HasPrefix) are not accepted as containment checks. The stored path is followed backwards through local variables and fields of local structs (every assignment), merges of branches (each alternative where its branch ends), string parameters of unexported helpers (every call site in the package; not when the helper is also used as a function value) and results of unexported (string, error) helpers (used on the nil-error edge; every path returned with a nil error). " +
 			"O2 the reader that joins the root with a stored path is called only where IsURL(<stored path of that reference>) is false (the predicate that lets absolute paths be stored verbatim is the one that keeps them away from the file reader). " +
+			"O3 the root field of FileManager is assigned only on an object under construction (allocated in the same function, or the parameter of an unexported helper that is such an object at every call site): the root the checks refer to is the configured one. " +
 			"NOT decided: symlinked path components (the property is component-wise, not resolved), the read side (paths already stored by older versions), URL references (not files).",
 		Assume:    []string{"filepath.Rel and filepath.IsLocal behave as documented (lexical)"},
 		Technique: "source -> sanitizer -> sink over SSA: value provenance of the stored path (R-FLOW) and dominance by the sanitizer's accepting edge (R-DOM), callee identity (R-API)",
@@ -573,6 +574,43 @@ func runC41(c *an.Ctx) {
 			}
 		}
 	}
+	// ---- O3: the configured root is fixed at construction: the root field is
+	// written only on an object allocated in the same function (or, in an
+	// unexported helper, on a parameter that is such an object at every call site)
+	nRootW := 0
+	var freshAt func(fn *ssa.Function, base ssa.Value, depth int) bool
+	freshAt = func(fn *ssa.Function, base ssa.Value, depth int) bool {
+		if an.IsFresh(base) {
+			return true
+		}
+		prm, isP := c01First(an.Roots(base, nil)).(*ssa.Parameter)
+		if !isP || len(an.Roots(base, nil)) != 1 || prm.Parent() != fn || !an.IsLocalHelper(fn) || depth > 2 || c41UsedAsValue(p.PkgFuncs(pkg), fn) {
+			return false
+		}
+		sites := an.CallSitesOf(p.PkgFuncs(pkg), fn)
+		for _, cs := range sites {
+			if !freshAt(cs.Caller, cs.Call.Common().Args[an.RawParamIndex(prm)], depth+1) {
+				return false
+			}
+		}
+		return len(sites) > 0
+	}
+	for _, fn := range p.PkgFuncs(pkg) {
+		if fn.Blocks == nil {
+			continue
+		}
+		for _, st := range an.FieldStores(fn, fRoot) {
+			fa, ok := st.Addr.(*ssa.FieldAddr)
+			if !ok {
+				continue
+			}
+			nRootW++
+			c.Check(freshAt(fn, fa.X, 0), "O3", "R-FLOW", an.FuncName(fn), "root assigned only at construction", st.Pos(),
+				"the root is set while the FileManager is being constructed",
+				"the FileManager's root is reassigned on a live object: references are then checked against (and resolved below) a directory other than the configured root")
+		}
+	}
+	c.Min("O3 assignments of the root field", nRootW, 1)
 	c.Min("O2 callers of the root-joining file reader", nJoin, 1)
 	c.Min("O1 serialised filestore references", nMarshal, 1)
 	c.Min("O1 FilePath stores of serialised references", nStores, 1)
